@@ -231,6 +231,16 @@ def _class(cfg):
     return "other"
 
 
+def big_query(draw, h):
+    """Now and then one query batch of hundreds or thousands of rows (a few drawn rows, tiled): code paths that
+    only open up for large batches. Only for bandits that predict vectorised (no neighbourhood policy); a
+    neighbourhood policy answers row by row and would take seconds per call."""
+    if h.np is None and h.fitted and draw(st.integers(0, 5)) == 0:
+        rows = draw(gen.contexts_st(draw(st.integers(2, 5)), h.d if h.contextual else 1, h.grid))
+        times = draw(st.sampled_from([120, 260, 420, 1700]))
+        h.ops.append([draw(st.sampled_from(["predict_tiled", "predict_expectations_tiled"])), rows, times])
+
+
 # ---- (c)+(d) schedule-owning executor with write-set monitor -----------------------------------------------------------
 
 @st.composite
@@ -251,6 +261,7 @@ def schedule_plan_st(draw, tier, ctx):
                          "predict_expectations", "predict_expectations"])
     h.predict_expectations()
     h.predict()
+    big_query(draw, h)
     keys = draw(st.lists(st.integers(0, 6), min_size=4, max_size=12))
     return {"config": cfg, "ops": h.ops, "keys": keys, "mode": draw(st.sampled_from(["thread", "process"]))}
 
@@ -326,6 +337,7 @@ def joblib_plan_st(draw, tier, ctx):
     h.predict(m=draw(st.sampled_from([1, 3, 5])))
     h.partial_fit()
     h.predict_expectations(m=2)
+    big_query(draw, h)
     return {"config": cfg, "ops": h.ops}
 
 
